@@ -8,7 +8,7 @@ TABLES = ['T13']
 RULE = ('input strings: corpus + exhaustive strings over the hostile alphabet {a " \\ space [ ] | x 8 e-acute} (length<=4 quick, <=5 thorough) under '
         'several (brackets, pipe, quotes, nested) configurations + seeded hostile strings (surrogates, astral, NUL/CR/LF, all bracket styles, escapes) + '
         'escape-sequence fuzz inside quotes; argument lists and bare-word trees rendered with minimal quoting, with utils.str.dqrepr and with brackets.  '
-        'Every string is run through callbacks.tokenize and Tokenizer.tokenize (exception class kept) and through the extracted model and diffed; the '
+        'Every callbacks.tokenize call is made twice, the first result being edited in place (every leaf replaced, every list appended to) before the second call, which must give the same value in fresh objects.  Every string is run through callbacks.tokenize and Tokenizer.tokenize (exception class kept) and through the extracted model and diffed; the '
         'unicode_escape decoder model, the UTF-8 decoder/encoder model and the dqrepr model are additionally diffed against CPython directly.  Oracles on '
         'the implementation: only SyntaxError escapes callbacks.tokenize; minimal-quote and dqrepr round trip; bracket rendering gives exactly the nesting.  '
         'non-trivial = distinct non-empty input')
@@ -24,8 +24,8 @@ LEVEL_TEXT = ('Coq theorems over an executable Gallina model of shlex.read_token
               'CPython unicode_escape decode/encode, strict UTF-8 and Latin-1: totality (only SyntaxError escapes, for every string incl. lone surrogates, every '
               'configuration, every name table); UTF-8 round trip; minimal-quote round trip for every list of scalar-value strings, at top level and inside n levels of '
               'nested-command brackets; utils.str.dqrepr -> tokenize is the identity on every list of strings over all code points, at top level and inside n levels of brackets (full statement, after the repair of C13.F15); '
-              'the text of every tree of bare words (any depth) tokenises to exactly that tree, unbalanced brackets give SyntaxError, and with nesting off brackets are literal; the configuration used for a message is the one set for its channel/network (model of getSpecific/conf.get), so brackets '' set for a channel make brackets literal there.  Tied to the source by regenerated tables '
-              '(separators, whitespace, bracket/quote sets, except clause, codec chain and the nonAscii guard of _handleToken, the argument order of the brackets/pipeSyntax/quotes lookups in tokenize() against the signatures of conf.get and Value.getSpecific) and a differential run against the real tokenizer and codecs on every check.')
+              'the text of every tree of bare words (any depth) tokenises to exactly that tree, unbalanced brackets give SyntaxError, and with nesting off brackets are literal; the configuration used for a message is the one set for its channel/network (model of getSpecific/conf.get), so an empty brackets setting for a channel makes brackets literal there; in any session of calls and in-place edits of earlier results every call observes tokenize_at of its own configuration and text.  Tied to the source by regenerated tables '
+              '(separators, whitespace, bracket/quote sets, except clause, codec chain and the nonAscii guard of _handleToken, that tokenize() returns the fresh result of the Tokenizer and refers to no module-level state, the argument order of the brackets/pipeSyntax/quotes lookups in tokenize() against the signatures of conf.get and Value.getSpecific) and a differential run against the real tokenizer and codecs on every check.')
 LEVEL_NOTE = ('Trusted: Coq kernel, gen_tables.py, extraction + OCaml driver, the Python harness, CPython codecs (modelled, differentially tested). '
               'Python code is modelled, not verified.  Not proved, explored only: escape spellings other than minimal quoting and dqrepr (\\xHH, octal, \\uHHHH of ASCII text); quoted '
               'arguments inside nested commands mixed with bare command words; renderings with other spacing than one space.')
@@ -93,18 +93,62 @@ def set_cfg(cfg):
     _state['cfg'] = dict(cfg)
 
 
+POISON = '\x01poisoned\x01'
+
+
+def _poison(x):
+    """what Alias/Aka/Scheduler/Conditional do to the tree they get (substitute into it in place), taken to the extreme:
+    every leaf replaced, something appended to every list -- all in place"""
+    for i, y in enumerate(x):
+        if isinstance(y, list):
+            _poison(y)
+        else:
+            x[i] = POISON
+    x.append(POISON)
+
+
+def _list_ids(x, acc):
+    acc.add(id(x))
+    for y in x:
+        if isinstance(y, list):
+            _list_ids(y, acc)
+    return acc
+
+
+def call_twice(f):
+    """the result of f() -- ('ok', tree) | ('raise', name) | ('bad', repr) -- after checking that tokenising is a
+    function of (configuration, text) only: the call is repeated after the first result was edited in place, and must
+    give the same value again, in objects that are not shared with the first result.
+    ('repeat', detail) when that fails."""
+    def once():
+        try:
+            r = f()
+        except BaseException as e:  # noqa: the property is about *any* other failure
+            if isinstance(e, (KeyboardInterrupt, SystemExit)):
+                raise
+            return ('raise', exn_name(e)), None
+        if not (isinstance(r, list) and all_str(r)):
+            return ('bad', repr(r)[:200]), None
+        return ('ok', [canon_tree(x) for x in r]), r
+    first, obj1 = once()
+    if obj1 is not None:
+        ids1 = _list_ids(obj1, set())
+        _poison(obj1)
+    second, obj2 = once()
+    if second != first:
+        return ('repeat', 'tokenised again after the caller edited the first result in place: first %r, then %r' % (first, second))
+    if obj2 is not None and (_list_ids(obj2, set()) & ids1):
+        return ('repeat', 'the second call returned list objects of the first result (shared, caller-visible state)')
+    if obj2 is not None:
+        _poison(obj2)       # leave nothing usable behind for a third caller either
+    return first
+
+
 def impl_wrapper(cfg, s):
-    """callbacks.tokenize under the configuration"""
+    """callbacks.tokenize under the configuration (called twice, see call_twice)"""
     set_cfg(cfg)
-    try:
-        r = _mods()['callbacks'].tokenize(s)
-    except BaseException as e:  # noqa: the property is about *any* other failure
-        if isinstance(e, (KeyboardInterrupt, SystemExit)):
-            raise
-        return ('raise', exn_name(e))
-    if not (isinstance(r, list) and all_str(r)):
-        return ('bad', repr(r)[:200])
-    return ('ok', [canon_tree(x) for x in r])
+    tok = _mods()['callbacks'].tokenize
+    return call_twice(lambda: tok(s))
 
 
 def impl_tokenizer(cfg, s):
@@ -199,6 +243,8 @@ def check_text(ctx, inp, mo0, mo1, kind):
             ctx.disagree(inp, mt, it, 'Tokenizer.tokenize')
     if iw[0] == 'bad':
         ctx.fail(inp, 'tokenize returned something that is not a tree of str: %s' % iw[1])
+    elif iw[0] == 'repeat':
+        ctx.fail(inp, 'tokenize is not a function of (configuration, text): %s' % iw[1])
     elif iw[0] == 'raise' and iw[1] != 'SyntaxError':
         ctx.fail(inp, 'tokenize raised %s instead of SyntaxError' % iw[1])
 
@@ -365,15 +411,7 @@ def impl_lookup(inp):
                 var.get(':' + NET_OK).setValue(conv[k](net))
             if netchan is not None:
                 var.get(':' + NET_OK).get(CHAN_OK).setValue(conv[k](netchan))
-        try:
-            r = m['callbacks'].tokenize(inp['s'], channel=inp['loc']['channel'], network=inp['loc']['network'])
-        except BaseException as e:  # noqa
-            if isinstance(e, (KeyboardInterrupt, SystemExit)):
-                raise
-            return ('raise', exn_name(e))
-        if not (isinstance(r, list) and all_str(r)):
-            return ('bad', repr(r)[:200])
-        return ('ok', [canon_tree(x) for x in r])
+        return call_twice(lambda: m['callbacks'].tokenize(inp['s'], channel=inp['loc']['channel'], network=inp['loc']['network']))
     finally:
         for var in vars_.values():
             _clear_specific(var)
@@ -423,7 +461,7 @@ def check_lookup(ctx, inp, mo):
         mw = wire.r(mo, dec_trees)
         if mw != got:
             ctx.disagree(inp, mw, got, 'callbacks.tokenize(s, channel, network)')
-    if got[0] == 'bad' or (got[0] == 'raise' and got[1] != 'SyntaxError'):
+    if got[0] in ('bad', 'repeat') or (got[0] == 'raise' and got[1] != 'SyntaxError'):
         ctx.fail(inp, 'tokenize(s, channel, network) gave %r' % (got,))
     exp = should_apply(inp)
     if exp is not None:
@@ -521,7 +559,7 @@ def rand_tree(rng, depth, cfg):
     return [node(depth) for _ in range(rng.randint(1, 4))]
 
 
-CORPUS = ['outer ["echo" "a" "]" "b"] tail', 'outer [echo "["] tail', '[echo "\\x5d"]', '["\\x5b"]', '<echo ">" "<">', '{"}"}', '(")" "(")',
+CORPUS = ['echo hello "$1" [echo $1]', 'echo $* | echo @1', 'outer ["echo" "a" "]" "b"] tail', 'outer [echo "["] tail', '[echo "\\x5d"]', '["\\x5b"]', '<echo ">" "<">', '{"}"}', '(")" "(")',
           '[echo "|"]', '[a "]" [b "["]]', '["]"', '["\\135"]', '["\\u005d"]', '[echo "a]b"]', '["\\"" "]"]', '', ' ', 'a', 'a b', '"a b" c', '"a\\"b"', '"\\\\"', '"a', '"a\\', '"a\\"', 'a"b', 'a"b c"', '[a]', '[a', 'a]', '[[a] b] c', '[]', 'a[b]c', 'a|b',
           'a | b', '| a', 'a |', 'a | b | c', 'a | b | c | d', '[a | b]', '"\u597d"', '"\u00c2\u0080"', '"\\xc2\\x80"', '"\\x80"', '"\\xe9"', '"\ud800"', '\ud800',
           '"\\N{DIGIT ONE}"', '"\\N{nope}"', '"\\N"', '"\\x4"', '"\\U00110000"', '"\\777"', '"\\18"', '"\\q"', 'a\x00b', '\x00', '"\x00"', 'a\rb\nc', '""', '"" ""',
